@@ -15,16 +15,15 @@ Proof.
   apply fits_ok, Hf.
 Qed.
 
-Lemma crash_recovers_last_close_real_l cfg ss st os n f :
+Lemma crash_recovers_last_close_real_l cfg ss st os d' :
   no_crash ss = true -> forallb kclean (real_flags cfg ss) = true ->
   snd (real_sessions cfg ss) = ROk st ->
   Forall rec_fits (real_logs cfg ss ++ ops_logs crc32 enc_record cfg st os) ->
   w_seq (db_w (fst (real_ops cfg st os))) = w_seq (db_w st) ->
-  d_files (w_disk (db_w st)) = [(0, f)] -> (length (f_bytes f) <= n)%nat ->
-  exists st2, real_open (cut_disk [(0, Z.of_nat n)] (wdrop (db_w (fst (real_ops cfg st os))))) = ROk st2
-              /\ db_store st2 = db_store st.
+  crash (wdrop (db_w (fst (real_ops cfg st os)))) d' ->
+  exists st2, real_open d' = ROk st2 /\ db_store st2 = db_store st.
 Proof.
-  intros Hc Hk Hr Hf. apply (crash_recovers_last_close_l crc32 enc_record dec_record_slice crc32_range cfg ss st os n f Hc Hk Hr).
+  intros Hc Hk Hr Hf. apply (crash_recovers_last_close_l crc32 enc_record dec_record_slice crc32_range cfg ss st os d' Hc Hk Hr).
   apply fits_ok, Hf.
 Qed.
 
